@@ -6,6 +6,7 @@ import (
 	"pgregory.net/rapid"
 
 	"package-operator.run/verifharness/engine"
+	"package-operator.run/verifharness/refmodel"
 )
 
 func c06Extra(t *rapid.T, sc *Scenario) {
@@ -73,6 +74,56 @@ func genC06Namesakes(t *rapid.T) *Scenario {
 	return sc
 }
 
+// genC06SpecChange: a directed family: workloads (Widgets) with probes on their reported status are rolled out and become
+// ready; then a pass changes their spec - a successor revision with other content, or the repair of a third party's edit -
+// so the status the pass read no longer speaks about the object it has just written.
+func genC06SpecChange(t *rapid.T) *Scenario {
+	sc := &Scenario{Prop: "C06"}
+	canned := CannedProbes()
+	nw := rapid.IntRange(1, 2).Draw(t, "nwidgets")
+	s0 := SetSpec{Probes: []refmodel.RObjectSetProbe{canned[rapid.SampledFrom([]int{0, 0, 1, 5}).Draw(t, "probe")]}}
+	ph := PhaseSpec{Name: "p0", Class: rapid.SampledFrom([]string{"", "", engine.ClassDefault}).Draw(t, "class")}
+	for w := 0; w < nw; w++ {
+		ph.Objs = append(ph.Objs, ObjSpec{Pool: 4 + w})
+	}
+	s0.Phases = []PhaseSpec{ph}
+	if rapid.Bool().Draw(t, "second") {
+		s0.Phases = append(s0.Phases, PhaseSpec{Name: "p1", Objs: []ObjSpec{{Pool: rapid.IntRange(0, 2).Draw(t, "cm")}}})
+	}
+	sc.Steps = append(sc.Steps, Step{Op: "createSet", Set: &s0}, Step{Op: "quiesce"})
+	for w := 0; w < 3; w++ {
+		sc.Steps = append(sc.Steps, Step{Op: "widget", I: w, J: 1})
+	}
+	sc.Steps = append(sc.Steps, Step{Op: "quiesce"})
+	ctrls := []string{engine.CtrlObjectSet, engine.CtrlObjectSet, engine.CtrlObjectSetPhase}
+	if rapid.Bool().Draw(t, "successor") {
+		s1 := s0
+		s1.Phases = nil
+		for _, p := range s0.Phases {
+			p2 := p
+			p2.Objs = nil
+			for _, o := range p.Objs {
+				o.Variant++
+				p2.Objs = append(p2.Objs, o)
+			}
+			s1.Phases = append(s1.Phases, p2)
+		}
+		s1.Previous = []int{0}
+		sc.Steps = append(sc.Steps, Step{Op: "createSet", Set: &s1})
+	} else {
+		sc.Steps = append(sc.Steps, Step{Op: "tpEdit", I: 4 + rapid.IntRange(0, nw-1).Draw(t, "edited")})
+	}
+	for i := rapid.IntRange(1, 6).Draw(t, "nrec"); i > 0; i-- {
+		if rapid.IntRange(0, 4).Draw(t, "x") == 0 {
+			c06Extra(t, sc)
+		} else {
+			sc.Steps = append(sc.Steps, GenReconcile(t, ctrls))
+		}
+	}
+	sc.Steps = append(sc.Steps, Step{Op: "quiesce"})
+	return sc
+}
+
 func TestC06(t *testing.T) {
 	st := NewStats("C06", "engine", "scenario = chains of 1-3 revisions (local/delegated phases) with rollout, handover, probe regressions (workload status changes), pause, archival, deletion, restarts, API faults and user spec edits injected between a pass's read and its status write; every successful status write is compared with what the same pass observed; non-trivial = a status write with Available=True happened and (a handover or a pass after Archived=True or an in-pass owner edit) occurred")
 	opts := SetGenOpts{AllowClass: true, Classes: []string{engine.ClassDefault}, CPs: []string{"", "", "IfNoController", "None"}, PoolSize: 5, MaxObjs: 2, MaxPhases: 3, ChainBias: true}
@@ -85,8 +136,10 @@ func TestC06(t *testing.T) {
 		return ReplayScenario(data, func(sc *Scenario) *Runner { r, _, _ := mk(sc); return r })
 	}, func(rt *rapid.T) {
 		var sc *Scenario
-		if rapid.IntRange(0, 5).Draw(rt, "family") == 0 {
+		if f := rapid.IntRange(0, 7).Draw(rt, "family"); f == 0 {
 			sc = genC06Namesakes(rt)
+		} else if f == 1 {
+			sc = genC06SpecChange(rt)
 		} else {
 			sc = genChainWorldTP(rt, "C06", opts, c06Extra, false)
 		}
